@@ -30,6 +30,7 @@ SInit(limit, respBuf) ==
     read     |-> NoRead,   \* the request read in this poll whose fate is not decided yet
     relInPoll|-> FALSE,    \* a release (cancel, guard drop) was processed earlier in this channel poll
     relPend  |-> FALSE,    \* an application guard drop awaits the next channel poll
+    f7poll   |-> FALSE,    \* a refusal explained by finding F7 already happened in this channel poll
     guardIds |-> {},       \* ids abandoned by the application whose queued cancellation the channel may not have processed yet
     staleG   |-> {},       \* ids whose ALREADY ENDED incarnation's guard was dropped by the application
     nextInPoll |-> FALSE,  \* the transport's read side was polled in this channel poll
@@ -111,10 +112,14 @@ SResponse(o, id, ok, h, throttle) ==
   IF throttle /\ r.id = id /\ ~r.dup THEN
     \* the request just read is refused
     LET o1 == IF o.limit < 0 THEN Bad(o0, "C12", "request refused although no limit is configured", "") ELSE o0
-        o2 == IF o.limit >= 0 /\ r.omax < o.limit
+        \* F7 (limit compared before the inner poll that releases a request and reads the next one) explains at most
+        \* one such refusal per channel poll: the count is read again after every refusal
+        f7 == o.limit >= 0 /\ r.omax < o.limit /\ r.rel /\ ~o.f7poll
+        o2a == IF o.limit >= 0 /\ r.omax < o.limit
                 THEN Bad(o1, "C12", "request refused although fewer than L others were in flight",
-                         IF r.rel THEN "Sig_RefusedAfterSamePollRelease" ELSE "")
+                         IF f7 THEN "Sig_RefusedAfterSamePollRelease" ELSE "")
                 ELSE o1
+        o2 == IF f7 THEN [o2a EXCEPT !.f7poll = TRUE] ELSE o2a
         o3 == IF id \in TrackedIds(o2) THEN Untrack(EndInc(o2, HOf(o2, id), "expired"), id) ELSE o2
     IN [o3 EXCEPT !.read = NoRead, !.throttled = @ + 1]
   ELSE IF h \in DOMAIN o.inc THEN
@@ -216,7 +221,7 @@ SSinkOp(o, op, res, unflushed) ==
 SPollStart(o) ==
   LET o1 == StaleGuards(o, o.staleG) IN
   [o1 EXCEPT !.relInPoll = o.relPend \/ o.staleG # {}, !.relPend = FALSE, !.staleG = {}, !.nextInPoll = FALSE,
-             !.lastflush = "none", !.read = NoRead, !.lastRP = FALSE, !.f6poll = FALSE]
+             !.lastflush = "none", !.read = NoRead, !.lastRP = FALSE, !.f6poll = FALSE, !.f7poll = FALSE]
 
 (* the end of a channel poll: expiry bookkeeping and count checks *)
 RECURSIVE ExpireAll(_, _)
